@@ -24,6 +24,7 @@ def conn_check(run, spec):
     res = t2check.run_t2(run, n, spec.get('n_ops', 30), spec['parts'], weights=spec.get('weights'),
                          rf_weights=spec.get('rf_weights'), cfg_fn=spec.get('cfg_fn'), starts=spec.get('starts', ('initiate',)),
                          extra_programs=extra)
+    extra_cov = spec['extra_stage'](run) if spec.get('extra_stage') else {}
     oracle = spec.get('oracle')
     finding_of = spec.get('finding_of', lambda v: None)
     new_violations = []
@@ -78,6 +79,7 @@ def conn_check(run, spec):
     cov = common.proof_coverage(r, extra_obligations=spec.get('extra_obligations', 0))
     cov.update(t2check.coverage_of(res, spec.get('nontrivial', lambda p: True), spec.get('rule', '')))
     cov['projection'] = [t2.PARTS[k] for k in spec['parts']]
+    cov.update(extra_cov)
     cov['oracle_violations_known'] = sorted(known)
     return run.finish('proof', cov, assumptions=spec.get('assumptions', []))
 
